@@ -142,6 +142,23 @@ def _vasp_structure(name, L, X):
     )
 
 
+def names_of(d: dict) -> dict:
+    """File names of a dataset's sources.  Without a 'stem' the classic names are used; with one (it may contain dots) every
+    file is <stem>.<ext>, so that several datasets can live in one directory."""
+    st = d.get('stem')
+    if d['fmt'] == 'lammps':
+        return ({'coords': f'{st}.xyz', 'data': f'{st}.data', 'data2': f'{st}.data2', 'alt_data': f'alt/{st}.data'} if st
+                else {'coords': 'coords.xyz', 'data': 'data.txt', 'data2': 'data2.txt', 'alt_data': 'alt/data.txt'})
+    if d['fmt'] == 'vasp':
+        return {'xml': f'{st}.xml'} if st else {'xml': 'vasprun.xml'}
+    return ({'top': f'{st}.gro', 'xtc': f'{st}.xtc', 'top2': f'{st}.top2.gro', 'alt_top': f'alt/{st}.gro'} if st
+            else {'top': 'top.gro', 'xtc': 'traj.xtc', 'top2': 'top2.gro', 'alt_top': 'alt/top.gro'})
+
+
+def source_basenames(d: dict) -> set:
+    return {os.path.basename(v) for v in names_of(d).values()}
+
+
 def write_vasprun(path, lattices, species, frac, potim=2.0, tebeg=600.0):
     nf, na, _ = frac.shape
     types = []
@@ -192,13 +209,14 @@ def write_vasprun(path, lattices, species, frac, potim=2.0, tebeg=600.0):
         f.write(''.join(out))
 
 
-def write_lammps(dirpath, L0, species, frac, style='atomic'):
+def write_lammps(dirpath, L0, species, frac, style='atomic', names=None):
+    names = names or {'coords': 'coords.xyz', 'data': 'data.txt', 'data2': 'data2.txt', 'alt_data': 'alt/data.txt'}
     from pymatgen.core import Lattice, Structure
     from pymatgen.io.lammps.data import LammpsData
 
     s = Structure(Lattice(L0), species, frac[0])
-    LammpsData.from_structure(s, atom_style=style).write_file(os.path.join(dirpath, 'data.txt'))
-    L = LammpsData.from_file(os.path.join(dirpath, 'data.txt'), atom_style=style).structure.lattice
+    LammpsData.from_structure(s, atom_style=style).write_file(os.path.join(dirpath, names['data']))
+    L = LammpsData.from_file(os.path.join(dirpath, names['data']), atom_style=style).structure.lattice
     lines = []
     na = len(species)
     for i in range(len(frac)):
@@ -206,18 +224,19 @@ def write_lammps(dirpath, L0, species, frac, style='atomic'):
         lines.append(f'{na}\nframe {i}\n')
         for sp, c in zip(species, cart):
             lines.append(f'{sp} {c[0]:.8f} {c[1]:.8f} {c[2]:.8f}\n')
-    with open(os.path.join(dirpath, 'coords.xyz'), 'w') as f:
+    with open(os.path.join(dirpath, names['coords']), 'w') as f:
         f.write(''.join(lines))
     # a second data file for the same coordinates (another cell): same coords_file, different data_file
     s2 = Structure(Lattice(np.asarray(L0) * 1.25), species, frac[0])
-    LammpsData.from_structure(s2, atom_style=style).write_file(os.path.join(dirpath, 'data2.txt'))
+    LammpsData.from_structure(s2, atom_style=style).write_file(os.path.join(dirpath, names['data2']))
     # ... and one with the *same file name* in another directory
     os.makedirs(os.path.join(dirpath, 'alt'), exist_ok=True)
     s3 = Structure(Lattice(np.asarray(L0) * 1.5), species, frac[0])
-    LammpsData.from_structure(s3, atom_style=style).write_file(os.path.join(dirpath, 'alt', 'data.txt'))
+    LammpsData.from_structure(s3, atom_style=style).write_file(os.path.join(dirpath, names['alt_data']))
 
 
-def write_gromacs(dirpath, box, species, frac, dt=2.0):
+def write_gromacs(dirpath, box, species, frac, dt=2.0, gnames=None):
+    gnames = gnames or {'top': 'top.gro', 'xtc': 'traj.xtc', 'top2': 'top2.gro', 'alt_top': 'alt/top.gro'}
     import MDAnalysis as mda
 
     nf, na, _ = frac.shape
@@ -234,7 +253,7 @@ def write_gromacs(dirpath, box, species, frac, dt=2.0):
     dims = [float(b) for b in box] + [90.0, 90.0, 90.0]
     u.dimensions = dims
     u.atoms.positions = cart[0]
-    u.atoms.write(os.path.join(dirpath, 'top.gro'))
+    u.atoms.write(os.path.join(dirpath, gnames['top']))
     # a second topology for the same coordinates (other element names): same coords_file, different topology_file
     swap = {'LI': 'NA', 'NA': 'LI', 'S': 'O', 'O': 'S', 'P': 'S'}
     names2 = []
@@ -244,12 +263,12 @@ def write_gromacs(dirpath, box, species, frac, dt=2.0):
         counts2[t] = counts2.get(t, 0) + 1
         names2.append(f'{t}{counts2[t]}')
     u.atoms.names = names2
-    u.atoms.write(os.path.join(dirpath, 'top2.gro'))
+    u.atoms.write(os.path.join(dirpath, gnames['top2']))
     os.makedirs(os.path.join(dirpath, 'alt'), exist_ok=True)
     u.atoms.names = list(reversed(names2))
-    u.atoms.write(os.path.join(dirpath, 'alt', 'top.gro'))  # same file name, other directory, other content
+    u.atoms.write(os.path.join(dirpath, gnames['alt_top']))  # same file name, other directory, other content
     u.atoms.names = names
-    with mda.Writer(os.path.join(dirpath, 'traj.xtc'), na) as w:
+    with mda.Writer(os.path.join(dirpath, gnames['xtc']), na) as w:
         for i in range(nf):
             u.atoms.positions = cart[i]
             u.dimensions = dims
@@ -262,16 +281,16 @@ def write_dataset(d: dict, dirpath: str):
     """Write the source files of dataset ``d`` into ``dirpath``; return source file names."""
     os.makedirs(dirpath, exist_ok=True)
     frac, lats = dataset_arrays(d)
+    n = names_of(d)
     if d['fmt'] == 'vasp':
-        write_vasprun(os.path.join(dirpath, 'vasprun.xml'), lats, d['species'], frac, d['potim'], d['tebeg'])
-        return ['vasprun.xml']
-    if d['fmt'] == 'lammps':
-        write_lammps(dirpath, lats[0], d['species'], frac, d.get('lammps_style', 'atomic'))
-        return ['data.txt', 'data2.txt', 'coords.xyz']
-    if d['fmt'] == 'gromacs':
-        write_gromacs(dirpath, d['lattice']['params'][:3], d['species'], frac, d['dt'])
-        return ['top.gro', 'top2.gro', 'traj.xtc']
-    raise ValueError(d['fmt'])
+        write_vasprun(os.path.join(dirpath, n['xml']), lats, d['species'], frac, d['potim'], d['tebeg'])
+    elif d['fmt'] == 'lammps':
+        write_lammps(dirpath, lats[0], d['species'], frac, d.get('lammps_style', 'atomic'), n)
+    elif d['fmt'] == 'gromacs':
+        write_gromacs(dirpath, d['lattice']['params'][:3], d['species'], frac, d['dt'], n)
+    else:
+        raise ValueError(d['fmt'])
+    return sorted(n.values())
 
 
 # loader argument sets per format ("configurations" of C16's quantifier)
@@ -309,11 +328,11 @@ ARGSETS = {
 
 # the option space the seeded sequences draw from: (name, values); the first value is the default (omitted from the call)
 OPTION_SPACE = {
-    'lammps': [('temperature', [300, 700, 1000.5]), ('time_step', [1.0, 2.5]), ('type_mapping', [None, 'A', 'B']), ('constant_lattice', [None, True, False]),
+    'lammps': [('temperature', [300, 700, 1000.5, 3000, 30]), ('time_step', [1.0, 2.5, 10.0, 0.1]), ('type_mapping', [None, 'A', 'B']), ('constant_lattice', [None, True, False]),
                ('atom_style', [None, 'atomic', 'charge']), ('_data', [None, 'data2.txt', 'alt/data.txt']), ('coords_format', [None, 'xyz', 'XYZ'])],
     'vasp': [('constant_lattice', [None, True, False]), ('ionic_step_skip', [None, 2, 3]), ('ionic_step_offset', [None, 0, 1]), ('parse_dos', [None, False]),
              ('exception_on_bad_xml', [None, True])],
-    'gromacs': [('temperature', [300, 450]), ('constant_lattice', [None, True, False]), ('_top', [None, 'top2.gro', 'alt/top.gro'])],
+    'gromacs': [('temperature', [300, 450, 3000, 30.0]), ('constant_lattice', [None, True, False]), ('_top', [None, 'top2.gro', 'alt/top.gro'])],
 }
 REQUIRED = {'lammps': ('temperature', 'time_step'), 'vasp': (), 'gromacs': ('temperature',)}
 
@@ -366,13 +385,18 @@ def loader_call(fmt: str, dirpath: str, argset: dict, cache, dataset: dict | Non
         if dataset and dataset.get('lammps_style') == 'charge':
             # for a data file in 'charge' style the roles swap: omitted -> the style the file needs, 'charge' spelled out -> 'atomic' (fails)
             a['atom_style'] = {None: 'charge', 'atomic': 'charge', 'charge': 'atomic'}[a.get('atom_style')]
-        kw = dict(coords_file=os.path.join(dirpath, 'coords.xyz'), data_file=os.path.join(dirpath, a.pop('_data', 'data.txt')), **a)
+        n = names_of(dataset) if dataset else names_of({'fmt': 'lammps'})
+        which = {None: 'data', 'data.txt': 'data', 'data2.txt': 'data2', 'alt/data.txt': 'alt_data'}[a.pop('_data', None)]
+        kw = dict(coords_file=os.path.join(dirpath, n['coords']), data_file=os.path.join(dirpath, n[which]), **a)
         name = 'from_lammps'
     elif fmt == 'vasp':
-        kw = dict(xml_file=os.path.join(dirpath, 'vasprun.xml'), **a)
+        n = names_of(dataset) if dataset else names_of({'fmt': 'vasp'})
+        kw = dict(xml_file=os.path.join(dirpath, n['xml']), **a)
         name = 'from_vasprun'
     else:
-        kw = dict(topology_file=os.path.join(dirpath, a.pop('_top', 'top.gro')), coords_file=os.path.join(dirpath, 'traj.xtc'), **a)
+        n = names_of(dataset) if dataset else names_of({'fmt': 'gromacs'})
+        which = {None: 'top', 'top.gro': 'top', 'top2.gro': 'top2', 'alt/top.gro': 'alt_top'}[a.pop('_top', None)]
+        kw = dict(topology_file=os.path.join(dirpath, n[which]), coords_file=os.path.join(dirpath, n['xtc']), **a)
         name = 'from_gromacs'
     if cache is not None:
         kw['cache'] = cache
